@@ -23,6 +23,9 @@ func gather(m *metrics.Metrics) ([]metricSeries, string) {
 	}
 	var out []metricSeries
 	for _, f := range fams {
+		if !strings.HasPrefix(f.GetName(), "form3_loadtest_") {
+			continue // the process-wide registry also carries the Go runtime collectors
+		}
 		for _, mt := range f.GetMetric() {
 			s := metricSeries{Family: f.GetName(), Labels: map[string]string{}}
 			for _, lp := range mt.GetLabel() {
